@@ -213,6 +213,23 @@ func C16Cases(p *spec.Program, seed uint64, tier string, nSplits int) ([]*Case, 
 			run.Note = fmt.Sprintf("seeded split %d", i)
 			add("channel-equivalence/split", ref, run, Expect{Kind: "identical-file"})
 		}
+		// a very large file: the options sit behind 300 KiB of comments / inside a list of thousands of entries
+		if variant == 0 {
+			big := refR
+			pad := strings.Repeat("# padding padding padding padding padding padding padding padding\n", 5000)
+			big.Config = &ConfigFile{Mode: "file", Content: "---\n" + pad + strings.TrimPrefix(refR.Config.Content, "---\n")}
+			big.Note = "the same YAML behind 300 KiB of comments"
+			add("channel-equivalence/large-config:leading-comments", ref, big, Expect{Kind: "identical-file"})
+			lc := cfg.Clone()
+			var junk []string
+			for i := 0; i < 6000; i++ {
+				junk = append(junk, fmt.Sprintf("Padding%04d.Field", i))
+			}
+			lc.ExcludeFields = append(junk, lc.ExcludeFields...)
+			lr := runFrom(lc.Render(allOn(spec.ChYAML), nil))
+			lr.Note = "exclude_fields with 6000 entries that match nothing in front of the real ones"
+			add("channel-equivalence/large-config:long-list", ref, lr, Expect{Kind: "identical-file"})
+		}
 		// precedence (an option the configuration leaves unset cannot be carried by the CLI — an empty
 		// parameter means "not given" — so there is nothing to take precedence)
 		for _, d := range spec.DualOptions {
